@@ -169,34 +169,63 @@ def checks(f, errs=None, include_panics=False):
                 cur = op_local(rv[1])
                 continue
             break
-        if cmp_st is None:
-            continue
-        rv = cmp_st[2]
-        op = CMP[rv[1]]
-        a = subject_name(f, defs, rv[2])
-        c = subject_name(f, defs, rv[3])
-        a_deep = subject_name(f, defs, rv[2], use_names=False)
-        c_deep = subject_name(f, defs, rv[3], use_names=False)
-        # which edge rejects?
-        for v, s in [(x[0], x[1]) for x in t[2]] + [("otherwise", t[3])]:
-            if not leads_to_error(f, s, errs):
-                continue
-            # edge value: '0' means comparison false (after neg handling)
-            truth = (v != "0")
-            if v == "otherwise" and not any(x[0] == "0" for x in t[2]):
-                continue
-            if neg:
-                truth = not truth
-            cond_op = op if truth else NEG[op]
-            subj, other = a, c
-            sd, od = a_deep, c_deep
-            subj_o, other_o = rv[2], rv[3]
-            if isinstance(subj, int) and not isinstance(other, int):
-                subj, other, cond_op = other, subj, FLIP[cond_op]
-                sd, od = od, sd
-                subj_o, other_o = other_o, subj_o
-            out.append(dict(subject=subj, op=cond_op, other=other, pos=cmp_st[3], bb=b, fail_edge=(b, s, v), macro=cmp_st[4],
-                            subject_local=op_local(subj_o), other_local=op_local(other_o), deep=norm(sd, cond_op, od)))
+        cmp_sts = [cmp_st] if cmp_st is not None else []
+        if cmp_st is None and d is None and cur is not None:
+            # a named condition (`let empty = w == 0 || h == 0; if empty {..}`): the switch reads a bool local that other blocks
+            # assign either a constant or a comparison - each such comparison decides this branch with the same polarity
+            cands = []
+            for dd in defs.of(cur):
+                if f.is_cleanup(dd[0]):
+                    continue
+                if dd[2] != "assign":
+                    cands = None
+                    break
+                rv_ = dd[3][2]
+                if rv_[0] == "use" and rv_[1][0] in ("c", "m") and len(rv_[1][1]) == 1:
+                    # `flag = move _tmp` with `_tmp = Eq(..)` earlier in the same block
+                    src = rv_[1][1][0]
+                    prev = [st for st in f.stmts(dd[0])[:dd[1]] if st[0] == "=" and st[1] == [src]]
+                    if prev and prev[-1][2][0] == "bin" and prev[-1][2][1] in CMP:
+                        cands.append(prev[-1])
+                        continue
+                    cands = None
+                    break
+                if rv_[0] == "bin" and rv_[1] in CMP:
+                    cands.append(dd[3])
+                elif rv_[0] == "use" and rv_[1][0] == "k":
+                    continue
+                else:
+                    cands = None
+                    break
+            if cands and f.local_ty(cur) == "bool":
+                cmp_sts = cands
+        for cmp_st in cmp_sts:
+          rv = cmp_st[2]
+          op = CMP[rv[1]]
+          a = subject_name(f, defs, rv[2])
+          c = subject_name(f, defs, rv[3])
+          a_deep = subject_name(f, defs, rv[2], use_names=False)
+          c_deep = subject_name(f, defs, rv[3], use_names=False)
+          # which edge rejects?
+          for v, s in [(x[0], x[1]) for x in t[2]] + [("otherwise", t[3])]:
+              if not leads_to_error(f, s, errs):
+                  continue
+              # edge value: '0' means comparison false (after neg handling)
+              truth = (v != "0")
+              if v == "otherwise" and not any(x[0] == "0" for x in t[2]):
+                  continue
+              if neg:
+                  truth = not truth
+              cond_op = op if truth else NEG[op]
+              subj, other = a, c
+              sd, od = a_deep, c_deep
+              subj_o, other_o = rv[2], rv[3]
+              if isinstance(subj, int) and not isinstance(other, int):
+                  subj, other, cond_op = other, subj, FLIP[cond_op]
+                  sd, od = od, sd
+                  subj_o, other_o = other_o, subj_o
+              out.append(dict(subject=subj, op=cond_op, other=other, pos=cmp_st[3], bb=b, fail_edge=(b, s, v), macro=cmp_st[4],
+                              subject_local=op_local(subj_o), other_local=op_local(other_o), deep=norm(sd, cond_op, od)))
     return out
 
 
